@@ -49,13 +49,17 @@ def boundary_ports(W, r):
                         add(ap['portNumber']['port'])
                     if ap.get('portRange'):
                         add(ap['portRange']['start']); add(ap['portRange']['end'])
+    keep = set()
     for w in W['workloads']:
         for cp in w['ports']:
-            add(cp['port'])
+            if cp['name']:
+                keep.add(cp['port'])        # the numbers behind named ports are always queried
+            else:
+                add(cp['port'])
     ps = sorted(ps)
     if len(ps) > 9:
         ps = sorted(set(r.sample(ps, 7) + [1, 65535]))
-    return ps + [r.randint(1, 65535)]
+    return sorted(set(ps) | keep) + [r.randint(1, 65535)]
 
 
 def boundary_ips(W, r):
@@ -160,8 +164,8 @@ def main(tier):
                         for pr in gen.PROTOS:
                             for pt in ports:
                                 qs.append((s, t, pr, pt))
-                if len(qs) > 700:
-                    qs = run.rng.sample(qs, 700)
+                if len(qs) > 900:
+                    qs = run.rng.sample(qs, 900)
                 def qstr(x):
                     return x[2] if x[0] == 'pod' else str(ipaddress.ip_address(x[1]))
                 cmds.append({'id': 'e%d' % cid, 'cmd': 'eval', 'dir': d, 'mode': 'insert' if cli else 'objects',
